@@ -35,10 +35,7 @@ def expect_violation(ctx, mc, what):
 def subst(mc):
     consts = dict(mc.get('consts', {}))
     consts.update(mc.get('quick', {}))
-    cfg = mc['cfg']
-    for k, v in consts.items():
-        cfg = cfg.replace('{' + k + '}', str(v))
-    return cfg
+    return vlib.subst_cfg(mc['cfg'], consts)
 
 def run(a):
     ctx = vlib.Ctx('selftest', 'quick', 1)
